@@ -377,14 +377,18 @@ pub fn make_module() -> KMap {
         match ctx.instance_and_args(is_list, expected_error)? {
             (KValue::List(l), []) => {
                 let l = l.clone();
-                let mut data = l.data_mut();
+                // Sort a copy of the data, the comparisons may run functions that access the list
+                let mut data = l.data().clone();
                 sort_values(ctx.vm, &mut data)?;
+                *l.data_mut() = data;
                 Ok(KValue::List(l.clone()))
             }
             (KValue::List(l), [f]) if f.is_callable() => {
                 let l = l.clone();
 
-                let sorted = sort_by_key(ctx.vm, l.data().as_ref(), f.clone())?;
+                // The key function may access the list, so its data can't be borrowed while sorting
+                let unsorted = l.data().clone();
+                let sorted = sort_by_key(ctx.vm, unsorted.as_ref(), f.clone())?;
 
                 for (target_value, (_key, source_value)) in
                     l.data_mut().iter_mut().zip(sorted.into_iter())
